@@ -166,3 +166,4 @@ M("c03-render-transposed", "C03", "plot/wrappers.py", "    out = ax.pcolormesh(x
 M("c03-render-xlim", "C03", "plot/map.py", "        figure[\"ax\"].set_xlim(xmin, xmax)", "        figure[\"ax\"].set_xlim(xmin, xmax * 1.02)", "x axis of the rendered map extends beyond the window")
 M("c05-unfix-nextafter", "C05", "plot/histogram2d.py", "        ymax = max(ymax + 0.05 * dy, np.nextafter(ymax, np.inf))", "        ymax = ymax + 0.05 * dy", "automatic upper y limit can coincide with the largest value for ranges a few ulps wide (the original defect)")
 M("c05-unfix-quantity-limit", "C05", "plot/histogram2d.py", "            limit = limit.to(x.unit).magnitude", "            limit = limit.to(x.unit.units).magnitude", "an explicit limit given as a Quantity raises AttributeError again (the original defect)")
+M("c04-unfix-ndarray-predicate", "C04", "io/hilbert.py", "            if isinstance(func_test, Array):\n                func_test = func_test.values\n            inds = np.argwhere(func_test).ravel()\n", "            inds = np.argwhere(func_test.values).ravel()\n", "position predicates answering with a plain ndarray crash the Hilbert pre-selection again (the original defect)")
